@@ -1010,9 +1010,9 @@ impl Prop for C14 {
     }
     fn budget(&self, tier: Tier) -> usize {
         match tier {
-            Tier::Quick => 260,
-            Tier::Thorough => 4000,
-            Tier::Search => 1500,
+            Tier::Quick => 1200,
+            Tier::Thorough => 20000,
+            Tier::Search => 4000,
         }
     }
     fn gen_case(&mut self, rng: &mut Rng, _tier: Tier, _idx: usize) -> Vec<String> {
